@@ -229,8 +229,11 @@ CLAIMED = {
              "audio fed x references held) that gives the documented return class of every call in every state, including "
              "out-of-order calls, documented-bad arguments (bad / undefined / no-public JSGF, unknown words, duplicate / empty "
              "/ bad-phone / baseless-alternate words), abandoned segment / N-best / lattice-link / alignment iterators, "
-             "retained lattices and decoders, re-initialisation. TLC exports the complete graph; tours taking every (state, "
-             "call) edge are executed on the real library, one process per tour, under ASan + LeakSanitizer with assertions "
+             "retained lattices and decoders, re-initialisation, releasing the last reference in EVERY state (in mid-utterance "
+             "too), a lattice the caller keeps with lattice_retain beyond the utterance, the grammar, a re-initialisation and "
+             "the decoder itself and then uses and releases, posterior pruning of a lattice followed by further use, "
+             "empty-string arguments. TLC exports the complete graph; tours taking every (state, "
+             "call) edge plus seeded random walks through the same graph are executed on the real library, one process per tour, under ASan + LeakSanitizer with assertions "
              "enabled; a crash, sanitizer report, failed assertion or leak is a violation keyed by where it happened. TLC "
              "validates that every call returned the documented class and that a fixed probe utterance at the end of every "
              "tour gives the same result in every execution (the decoder is still usable and unchanged). Failing "
@@ -242,8 +245,9 @@ CLAIMED = {
              "for C09; value-semantics mismatches are reported as notes).",
         note="Grammar loading, word addition and re-initialisation are only issued between utterances. Memory safety, "
              "assertions and leaks are observed by the sanitizers, not by the specification. Trusted: TLC, recorder, ASan/LSan. "
-             "Genuine defects found and repaired: 16f80b1, 2630811, de33ce4 (and, found by other checks' matrices: ea60103, "
-             "8b2df5f, a166ee0); one open finding: the bison parser leaks on JSGF syntax errors.",
+             "Genuine defects found and repaired: 16f80b1, 2630811, de33ce4, 79da85f, d90f525, 3be204a, df6e362, 2fdac7b (and, "
+             "found by other checks' matrices: ea60103, 8b2df5f, a166ee0); one open finding: the bison parser leaks on JSGF "
+             "syntax errors.",
         technique="TLA+ protocol state machine; state-graph edge tours replayed on the real library under sanitizers; TLC "
                   "trace validation of return classes and of a probe result",
         design="4/C09"),
